@@ -212,3 +212,49 @@ Definition va_get_values_plain_m (v : ptr) : M (Z * ptr) :=
   end end.
 
 Definition mst0 (fail : option nat) : mst := {| mnext := 1%positive; mlive := PM.empty node; mallocs := 0; mfail := fail |}.
+
+(* sbdf_va_create_bit: the handle, a scratch buffer for the packed bits, the byte-array object that
+   becomes object1 (struct, one-cell data block, the byte array itself); the scratch buffer is
+   released on every path, everything else on every failure path *)
+Definition va_create_bit_m (arr : ptr) : M (Z * ptr) :=
+  match arr with None => mret (SBDF_ERROR_ARGUMENT_NULL, None) | Some _ =>
+  n <-m load arr ;;
+  match n with
+  | NObj ty count _ =>
+    h <-m alloc (NVa None None) ;;
+    match h with
+    | None => mret (SBDF_ERROR_OUT_OF_MEMORY, None)
+    | Some _ =>
+      let sz := if is_arr ty then 8 else usize ty in
+      if sz <? 0 then mfree h ;;m mret (sz, None)
+      else if sz =? 0 then mfree h ;;m mret (SBDF_ERROR_UNKNOWN_TYPEID, None)
+      else
+        out <-m alloc NBytes ;;
+        match out with
+        | None => mfree h ;;m mret (SBDF_ERROR_OUT_OF_MEMORY, None)
+        | Some _ =>
+          t <-m alloc (NObj SBDF_BINARYTYPEID 0 None) ;;
+          match t with
+          | None => mfree out ;;m mfree h ;;m mret (SBDF_ERROR_OUT_OF_MEMORY, None)
+          | Some _ =>
+            d <-m alloc (NPtrs [None]) ;;
+            match d with
+            | None => mfree out ;;m mfree h ;;m mfree t ;;m mret (SBDF_ERROR_OUT_OF_MEMORY, None)
+            | Some _ =>
+              store t (NObj SBDF_BINARYTYPEID 0 d) ;;m
+              ba <-m alloc NBytes ;;
+              match ba with
+              | None => mfree out ;;m mfree h ;;m mfree d ;;m mfree t ;;m mret (SBDF_ERROR_OUT_OF_MEMORY, None)
+              | Some _ =>
+                store d (NPtrs [ba]) ;;m
+                mfree out ;;m
+                store t (NObj SBDF_BINARYTYPEID 1 d) ;;m
+                store h (NVa t None) ;;m
+                mret (SBDF_OK, h)
+              end
+            end
+          end
+        end
+    end
+  | _ => mflt BadFree
+  end end.
